@@ -10,6 +10,7 @@ Oracle: (1) for the pure import actions every non-import line is unchanged; (2) 
 prints the same (this covers __all__ and re-exports); (3) applying the same action to the result yields no change.
 """
 import ast
+import re
 
 from hypothesis import strategies as st
 
@@ -53,7 +54,7 @@ FORMS = {
     "rel_from_multi": ("from .b import y1, y2", {"y1": "y1", "y2": "y2"}),
     "rel_star": ("from .b import *", {"y2": "y2"}),
 }
-USAGES = ["plain", "plain", "plain", "function_only", "function_only", "all_only", "all_only", "reexport_only", "unused", "unused", "shadowed", "shadowed"]
+USAGES = ["plain", "plain", "plain", "function_only", "function_only", "all_only", "all_only", "reexport_only", "unused", "unused", "shadowed", "shadowed", "global_namesake"]
 
 
 @st.composite
@@ -85,14 +86,14 @@ def strategy(tier):
 
 def render(case):
     files = {
-        "lib.py": "def f1():\n    return 1\ndef f2():\n    return 2\ndef f3():\n    return 3\ndef f4():\n    return 4\nclass C1:\n    def __init__(self):\n        self.v = 5\n__all__ = ['f1', 'f2', 'f3', 'f4', 'C1']\n",
-        "pkg/__init__.py": "P0 = 41\n",
+        "lib.py": "TAG = 6\ndef f1():\n    return 1\ndef f2():\n    return 2\ndef f3():\n    return 3\ndef f4():\n    return 4\nclass C1:\n    def __init__(self):\n        self.v = 5\n__all__ = ['f1', 'f2', 'f3', 'f4', 'C1']\n",
+        "pkg/__init__.py": "P0 = 41\nTAG = 46\n",
         "b.py": "y1 = 91\nq2 = 92\n",  # a top-level namesake of pkg/b.py: a relative import must stay relative
-        "pkg/a/__init__.py": "x1 = 11\nx2 = 12\n",
+        "pkg/a/__init__.py": "x1 = 11\nx2 = 12\nTAG = 16\n",
         "pkg/a/deep/__init__.py": "",
         "pkg/a/deep/deeper/__init__.py": "",
-        "pkg/a/deep/deeper/leafmod.py": "z = 31\n",
-        "pkg/b.py": "y1 = 21\ny2 = 22\n",
+        "pkg/a/deep/deeper/leafmod.py": "z = 31\nTAG = 36\n",
+        "pkg/b.py": "y1 = 21\ny2 = 22\nTAG = 26\n",
     }
     lines = []
     if case["docstring"]:
@@ -121,6 +122,15 @@ def render(case):
             allnames.append(name)
         elif u == "reexport_only":
             reexport.append(name)
+        elif u == "global_namesake":
+            # the only use is a module-level attribute access whose LAST component is also a global of this module
+            m_ = re.match(r"^([\w.]+)\.\w+(\(\))?$", expr)
+            if m_:
+                lines.append("TAG = %s.TAG" % m_.group(1))
+                if "TAG" not in plain:
+                    plain.append("TAG")
+            else:
+                plain.append(expr)
         elif u == "shadowed":
             lines.append("def shadow_%s():\n    %s = 40\n    return %s" % (name, name, name))
     lines.append("def run():\n    vals = [%s]\n    return vals" % ", ".join(infunc))
@@ -221,6 +231,10 @@ def evaluate(case, env):
         out.evals += 1
         try:
             changes = getattr(organizer, a)(res)
+        except rex.ModuleSyntaxError as e:
+            # every project module compiles (the project was just run): the text rope cannot parse is one it produced itself
+            out.violation("C07:intermediate_text_does_not_parse:%s" % a, "%r\n%s prefs=%s\n%s" % (e, a, case["prefs"], files[modpath]))
+            return out
         except rex.RopeError:
             out.refused += 1
             return out
